@@ -26,58 +26,65 @@ func init() {
 						if !c.Thorough() && r.P(2, 3) && len(credAlgsFor(f)) > 2 {
 							continue
 						}
-						s := newRegSpec(r, f, ca)
-						s.AttAlg = pick(r, attAlgsFor(f))
-						s.CredID = r.Bytes(pick(r, []int{0, 1, 16, 255, 256, 1023}))
-						b := buildRegistration(r, s)
-						honest := b.AttestOp(fmtID(f))
-						honest["_expectOK"] = true
-						executors["attest"](c, "bind.honest", honest)
-						nbits := len(b.AuthData) * 8
-						var positions []int
-						if c.Thorough() && nbits <= 8*400 {
-							for i := 0; i < nbits; i++ {
-								positions = append(positions, i)
-							}
-						} else {
-							// field boundaries + a PRNG sample
-							for _, by := range []int{0, 31, 32, 33, 36, 37, 52, 53, 54, 55, len(b.AuthData) - 1} {
-								if by < len(b.AuthData) {
-									positions = append(positions, by*8+r.Intn(8))
-								}
-							}
-							for i := 0; i < c.N(48, 200); i++ {
-								positions = append(positions, r.Intn(nbits))
-							}
+						idLens := []int{pick(r, []int{0, 1, 16, 255, 256, 1023})}
+						if f == "fido-u2f" {
+							// the u2f message carries the credential id in the middle: every length class, always
+							idLens = []int{pick(r, []int{0, 1, 16}), 255, 256, 320, 400, 1023}
 						}
-						// covered region for fido-u2f: rpIdHash, credential id, and the key coordinates
-						idStart := 55
-						idEnd := idStart + len(s.CredID)
-						for _, p := range positions {
-							mb := *b
-							mb.AuthData = flipBit(b.AuthData, p)
-							op := mb.AttestOp(fmtID(f))
-							op["_dev"] = fmt.Sprintf("flip-authData")
-							by := p / 8
-							covered := true
-							if f == "fido-u2f" {
-								covered = by < 32 || (by >= idStart && by < idEnd)
-								// coordinates: last 32 bytes (y) and the 32 bytes of x inside the COSE key (fixed-width encoding by the harness)
-								keyLen := len(b.AuthData) - idEnd
-								if s.Flags&0x80 != 0 {
-									keyLen -= len(s.Ext)
+						for _, idLen := range idLens {
+							s := newRegSpec(r, f, ca)
+							s.AttAlg = pick(r, attAlgsFor(f))
+							s.CredID = r.Bytes(idLen)
+							b := buildRegistration(r, s)
+							honest := b.AttestOp(fmtID(f))
+							honest["_expectOK"] = true
+							executors["attest"](c, "bind.honest", honest)
+							nbits := len(b.AuthData) * 8
+							var positions []int
+							if c.Thorough() && nbits <= 8*400 {
+								for i := 0; i < nbits; i++ {
+									positions = append(positions, i)
 								}
-								if by >= idEnd+keyLen-32 && by < idEnd+keyLen {
-									covered = true // y
+							} else {
+								// field boundaries + a PRNG sample
+								for _, by := range []int{0, 31, 32, 33, 36, 37, 52, 53, 54, 55, len(b.AuthData) - 1} {
+									if by < len(b.AuthData) {
+										positions = append(positions, by*8+r.Intn(8))
+									}
 								}
-								if by >= idEnd+keyLen-32-3-32 && by < idEnd+keyLen-32-3 {
-									covered = true // x
+								for i := 0; i < c.N(48, 200); i++ {
+									positions = append(positions, r.Intn(nbits))
 								}
 							}
-							if covered {
-								op["_expectOK"] = false
+							// covered region for fido-u2f: rpIdHash, credential id, and the key coordinates
+							idStart := 55
+							idEnd := idStart + len(s.CredID)
+							for _, p := range positions {
+								mb := *b
+								mb.AuthData = flipBit(b.AuthData, p)
+								op := mb.AttestOp(fmtID(f))
+								op["_dev"] = fmt.Sprintf("flip-authData")
+								by := p / 8
+								covered := true
+								if f == "fido-u2f" {
+									covered = by < 32 || (by >= idStart && by < idEnd)
+									// coordinates: last 32 bytes (y) and the 32 bytes of x inside the COSE key (fixed-width encoding by the harness)
+									keyLen := len(b.AuthData) - idEnd
+									if s.Flags&0x80 != 0 {
+										keyLen -= len(s.Ext)
+									}
+									if by >= idEnd+keyLen-32 && by < idEnd+keyLen {
+										covered = true // y
+									}
+									if by >= idEnd+keyLen-32-3-32 && by < idEnd+keyLen-32-3 {
+										covered = true // x
+									}
+								}
+								if covered {
+									op["_expectOK"] = false
+								}
+								executors["attest"](c, "bind.authData."+f, op)
 							}
-							executors["attest"](c, "bind.authData."+f, op)
 						}
 					}
 				}
